@@ -2239,8 +2239,21 @@ static bool parse_next(TokenContext &ctx, Chunk &pc, const Chunk *prev_pc)
          if (  last == '\\'             // 92
             && ch == ' ')               // 32
          {
-            ctx.get();
-            continue;
+            // only blanks that trail the line: 'a\ b' inside a directive keeps its blank
+            size_t ahead = 0;
+
+            while (ctx.peek(ahead) == ' ')
+            {
+               ahead++;
+            }
+
+            if (  ctx.peek(ahead) == '\n'
+               || ctx.peek(ahead) == '\r'
+               || ctx.peek(ahead) == 0)
+            {
+               ctx.get();
+               continue;
+            }
          }
 
          if (  (ch == '\n')
